@@ -123,7 +123,11 @@ def judgeHist (h : Hist) (kqs : Array KQ) (groups : List Tok) : String := Id.run
       | _, _ => return s!"SPEC {cls} missing-answers"
   -- the final dump
   match gs with
-  | ("T" :: sz :: dp :: t) :: _ =>
+  | ("T" :: sz :: dp :: t) :: after =>
+    -- an answer slice that reads differently after the later calls of the history
+    if let some g := after.find? (·.head? == some "changed") then
+      if (verdicts.toList.find? (·.startsWith "SPEC")).isNone then
+        return s!"DIFF {cls} answer-slice-of-query#{g.getD 1 "?"}-changed-under-later-calls"
     match pNode h.pool 64 t with
     | none => return s!"SPEC {cls} malformed-tree-after-history(C11)"
     | some (n, pok, _) =>
